@@ -235,6 +235,24 @@ def enumerate_cases(tier):
         {"op": "ctrl", "base": {"op": "GlobalPhase", "p": [0.7], "w": []}, "cw": [0, 1], "cv": [1, 0]},
         {"op": "ctrl", "base": {"op": "adjoint", "base": {"op": "S", "w": [2]}}, "cw": [0], "via": "class"},
     ]
+    # same-wire Pauli factors (every ordered pair / some triples) next to a factor without a Pauli representation: the grouping
+    # path of Prod.simplify has to multiply them in operand order (XY = iZ, YX = -iZ)
+    names = ["PauliX", "PauliY", "PauliZ"]
+    nonp = [{"op": "RX", "p": [0.7], "w": [1]}, {"op": "Hadamard", "w": [1]}, {"op": "CNOT", "w": [1, 2]}, {"op": "RY", "p": [0.3], "w": [0]}]
+    k = 0
+    for a in names:
+        for b in names:
+            if a == b:
+                continue
+            A, B = {"op": a, "w": [0]}, {"op": b, "w": [0]}
+            for g in nonp:
+                k += 1
+                shapes = [[A, B, g], [g, A, B], [A, g, B], [A, B, g, B, A], [{"op": "prod", "operands": [A, B]}, g],
+                          [A, {"op": "s_prod", "c": -0.5, "base": B}, g], [A, B, {"op": a, "w": [1]}, g, {"op": b, "w": [1]}]]
+                fixed.append({"op": "prod", "operands": shapes[k % len(shapes)]})
+                fixed.append({"op": "prod", "operands": shapes[(k + 3) % len(shapes)]})
+            c = [n for n in names if n not in (a, b)][0]
+            fixed.append({"op": "prod", "operands": [A, B, {"op": c, "w": [0]}, nonp[0], B]})
     for e in fixed:
         used = zoo_extra.spec_wires(e)
         yield {"expr": e, "order": list(reversed(used)) + ["zz"], "map": [[w, f"m{i}"] for i, w in enumerate(used)]}
